@@ -1,3 +1,353 @@
-(** C15 - placeholder until the theorems are merged. *)
-From SE Require Import Base.
-Example c15_placeholder : True. Proof. exact I. Qed.
+(** C15 - On a truncated image every reported file is a well-formed prefix.
+    Property theorems only (function level: the byte-window views and the transcoder's block
+    loops over a base file that was cut off after [c] bytes).
+
+    Vocabulary (TruncProofs.v, Trunc.v, StreamProofs.v):
+    - [content] the bytes of the COMPLETE image file, [cut_at c content] its first [c] bytes;
+    - [wf v content]: the windows of the view tower [v] (StreamWrapper [KWrap], StreamOffset
+      [KOff], SectorStream / FileStream sector chain / MdfStream [KSect]) fit the complete
+      file; [good v s]: any state of the view and of all its ancestors, any base cursor;
+    - [logical v content]: the bytes the view is meant to contain; [baddr v a]: the address in
+      the base file of byte [a] of the view; [cov v c p q]: all of bytes [p, q) of the view
+      lie below the cut; [has_sect v]: some sector kind occurs in the tower;
+    - [drain] / [drain_many]: PassthroughTranscoder / PipelineTranscoder block loops over
+      streams (read a block; SectorReadError -> stop; truncate to whole frames; empty ->
+      stop; else emit).
+
+    Covered: every such tower to any depth, every cut position, every state, every history
+    of seek / tell / read(n >= 0), every block size and frame size.
+    NOT covered here (carried by the oracle run of the check on real truncated images):
+    the sample-reversed view (StreamReversed); what the parsers of partition headers,
+    allocation tables, directories and sample headers make of a truncated image (in
+    particular window sizes that are computed from the truncated file itself - except the
+    MdfStream, whose size is computed from the file length: [mdf_over_cut_file],
+    [stacked_mdf_blocks_prefix]); WAV framing of the drained PCM (C04); read(n < 0). *)
+From SE Require Import Base Stream Transcode FatProofs StreamProofs Trunc TruncProofs TruncPlugProofs.
+
+(** * (1) One read over the cut file *)
+(** For every tower [v = V k size sub] that is well formed over the complete file, every cut
+    [c], every good state and every n >= 0: over the complete file read(n) returns
+    [b] = the logical bytes at the position (clipped at the end of the view); over the cut file
+    it returns, in a good state again,
+    - [b] itself, and always so when every base byte the read touches lies below the cut; or
+    - SectorReadError with the position unchanged - only when a sector kind occurs in the
+      tower and some touched byte is missing; or
+    - (towers of plain wrappers and offset windows only, some touched byte missing) a PROPER
+      PREFIX [b'] of [b]: the bytes of the cut file at the translated address; the position
+      advances by [zlen b] (StreamWrapper.read adds true_size, not the number of bytes that
+      came back).
+    No other exception, never a byte that is not the complete file's byte at the same
+    logical position. *)
+Theorem truncated_read :
+  forall k size sub content c s n,
+    let v := V k size sub in
+    wf v content -> good v s -> 0 <= n ->
+    let p := v_tell s in
+    let b := slice (logical v content) p (p + n) in
+    exists r s' s0,
+      v_read v content s n = (Ok b, s0) /\ v_read v (cut_at c content) s n = (r, s') /\ good v s' /\
+      ((r = Ok b /\ v_tell s' = p + zlen b)
+       \/ (cov v c p (p + zlen b) = false /\ has_sect v = true /\ r = Err SectorReadError /\ v_tell s' = p)
+       \/ (cov v c p (p + zlen b) = false /\ has_sect v = false /\ v_tell s' = p + zlen b /\
+           exists b' t, r = Ok b' /\ b = b' ++ t /\ t <> []
+                        /\ b' = slice (cut_at c content) (p + woff v) (p + woff v + zlen b)))
+      /\ (cov v c p (p + zlen b) = true -> r = Ok b).
+Proof. exact truncated_read_lemma. Qed.
+Print Assumptions truncated_read.
+
+(** The layer contract behind it, for every tower including the bare file: the outcome of
+    read(n) over the cut file is a function of the complete file, the cut and the position
+    only ([trunc_outcome]: [b] if covered, else SectorReadError if a sector kind occurs, else
+    the bytes that are there) - whatever the state of the ancestors. *)
+Theorem truncated_read_any_layer :
+  forall v content c, wf v content -> TruncLike v content c.
+Proof. exact view_trunclike. Qed.
+Print Assumptions truncated_read_any_layer.
+
+(** what "the base bytes the read touches lie below the cut" means *)
+Theorem covered_spec :
+  forall v c p q, cov v c p q = true <-> forall a, p <= a < q -> baddr v a < c.
+Proof. exact cov_true_iff. Qed.
+Print Assumptions covered_spec.
+Theorem logical_byte_is_base_byte :
+  forall v content, wf v content -> forall a, 0 <= a < vsize v content ->
+    znth 0 (logical v content) a = znth 0 content (baddr v a) /\ 0 <= baddr v a < zlen content.
+Proof. exact logical_znth. Qed.
+Print Assumptions logical_byte_is_base_byte.
+
+(** * (1') Histories *)
+(** For every history of seek(off, whence) / tell / read(n >= 0) from any good state, the
+    outputs over the cut file equal the outputs over the complete file up to the first read
+    that comes back short ([short_of]: a proper prefix of the complete read, or
+    SectorReadError where the complete file gave bytes); nothing is claimed after that read
+    (the transcoder stops there: (2)). *)
+Theorem truncated_run :
+  forall k size sub content c ops s,
+    wf (V k size sub) content -> good (V k size sub) s -> Forall op_ok ops ->
+    agree_until_short (fst (run (V k size sub) (cut_at c content) s ops))
+                      (fst (run (V k size sub) content s ops)).
+Proof. exact truncated_run_lemma. Qed.
+Print Assumptions truncated_run.
+
+(** When every byte of the view's window lies below the cut, the cut changes nothing. *)
+Theorem truncated_run_complete :
+  forall k size sub content c ops s,
+    wf (V k size sub) content -> good (V k size sub) s -> Forall op_ok ops ->
+    cov (V k size sub) c 0 size = true ->
+    fst (run (V k size sub) (cut_at c content) s ops) = fst (run (V k size sub) content s ops).
+Proof. exact truncated_run_complete_lemma. Qed.
+Print Assumptions truncated_run_complete.
+
+(** * (2) The block loop of the transcoder over one stream *)
+(** For every such tower, every cut, every good start state, every block size >= 1 and frame
+    size >= 1, every block encoder [enc] (no condition on it when a sector kind occurs in the
+    tower; frame-wise monotone otherwise - the identity of PassthroughTranscoder is), and
+    [drain_fuel] rounds or more: both loops terminate normally, what the loop yields over the
+    cut file is a PREFIX of what it yields over the complete file, and the two are equal when
+    the window from the start position on lies below the cut. *)
+Theorem truncated_blocks_prefix :
+  forall k size sub content c enc bs fs s fuel,
+    let v := V k size sub in
+    wf v content -> good v s -> 1 <= fs -> 1 <= bs ->
+    (has_sect v = true \/ enc_mono fs enc) ->
+    (drain_fuel v content s bs <= fuel)%nat ->
+    exists D D' T s1 s2,
+      drain fuel enc v content s bs fs [] = (Ok D, s1)
+      /\ drain fuel enc v (cut_at c content) s bs fs [] = (Ok D', s2)
+      /\ D = D' ++ T
+      /\ (cov v c (v_tell s) size = true -> D' = D).
+Proof. exact truncated_blocks_prefix_lemma. Qed.
+Print Assumptions truncated_blocks_prefix.
+
+Theorem passthrough_encoder_monotone : forall fs, enc_mono fs (fun x => x).
+Proof. exact enc_mono_id. Qed.
+Print Assumptions passthrough_encoder_monotone.
+
+(** Over the complete file the stream loop IS the byte-list loop [passthrough] of Transcode.v
+    (whose output C05 / C12 characterise: the rest of the logical content truncated to whole
+    frames), for any block size. *)
+Theorem drain_is_passthrough :
+  forall k size sub content bs fs src,
+    let v := V k size sub in
+    wf v content -> 0 < bs -> frame_size src = fs ->
+    forall fuel s acc, good v s ->
+      fst (drain fuel (fun x => x) v content s bs fs acc)
+      = passthrough fuel src bs (slice (logical v content) (v_tell s) size) acc.
+Proof. exact drain_passthrough_lemma. Qed.
+Print Assumptions drain_is_passthrough.
+
+(** * (3) Several streams drained together (stereo pair) *)
+(** [drain_many]: every round reads one block of every stream in turn; SectorReadError in any
+    of them ends the loop and drops the round; so does an empty block.  Between the reads the
+    other streams may have left the shared ancestors in any good state ([pre], [pre'],
+    independently in the two runs).  For streams whose towers all contain a sector kind
+    (AKAI and Roland sample data are sector chains), any round encoder [enc] (interleaving,
+    padding, byte order): the output over the cut file is a prefix - by whole rounds, hence
+    by whole frames - of the output over the complete file, equal to it when the windows of
+    all streams lie below the cut.
+    (Towers WITHOUT a sector kind are excluded on purpose: there a short block of one
+    stream is padded by pad_channels up to the length of the other, and the padded frames
+    are not the complete file's.) *)
+Theorem truncated_streams_prefix :
+  forall content c enc pre pre' xs fuel,
+    xs <> [] -> Forall (stream_ok content) xs -> Forall (fun x => has_sect (sv x) = true) xs ->
+    (forall n, pre_ok (pre n)) -> (forall n, pre_ok (pre' n)) ->
+    (many_fuel content xs <= fuel)%nat ->
+    exists D D' T xs1 xs2,
+      drain_many fuel pre enc content xs [] = (Ok D, xs1)
+      /\ drain_many fuel pre' enc (cut_at c content) xs [] = (Ok D', xs2)
+      /\ D = D' ++ T
+      /\ (forallb (strm_cov c content) xs = true -> D' = D).
+Proof. exact truncated_streams_prefix_lemma. Qed.
+Print Assumptions truncated_streams_prefix.
+
+(** interference that is allowed: none, or the ancestors left in any good state *)
+Theorem no_interference_ok : pre_ok (fun _ s => s).
+Proof. exact pre_ok_id. Qed.
+Print Assumptions no_interference_ok.
+Theorem ancestors_moved_ok :
+  forall f : view -> vstate,
+    (forall k size sub, good sub (f (V k size sub))) -> pre_ok (fun v s => interfere v s (f v)).
+Proof. exact pre_ok_interfere. Qed.
+Print Assumptions ancestors_moved_ok.
+
+(** * The 2352-byte-sector wrapper over a cut file *)
+(** MdfStream computes its size from the length of the file under it.  Over a cut file that
+    still holds a whole sector it is a well-formed view OF THE CUT FILE (so, by C08, an
+    ordinary read-only file), and its content is the complete wrapper's content cut at a
+    2048-byte boundary: a cut 2352-wrapped image looks, from above, like the raw image cut
+    at a sector boundary. *)
+Theorem mdf_over_cut_file :
+  forall content c,
+    let cut := cut_at c content in
+    let M := mdf_view (zlen content) Base in
+    let M' := mdf_view (zlen cut) Base in
+    2352 <= zlen cut ->
+    wf M content /\ wf M' cut
+    /\ logical M' cut = cut_at ((zlen cut / 2352) * 2048) (logical M content).
+Proof. exact mdf_cut_lemma. Qed.
+Print Assumptions mdf_over_cut_file.
+
+(** Everything above a well-formed bottom view sees it as a plain file holding its content:
+    [plug w B] is the tower [w] with the view [B] in place of the base file, [flat w S] the
+    state [S] with [B]'s state replaced by a plain cursor at [B]'s position; [shape_ok w]
+    (implied by [wf]): positive sizes and sector lengths, non-negative offsets and sector
+    numbers, no reversal.  Reads and block loops give the same results. *)
+Theorem bottom_view_reads_as_file :
+  forall kB sizeB subB X w S n,
+    wf (V kB sizeB subB) X -> shape_ok w -> good (plug w (V kB sizeB subB)) S -> 0 <= n ->
+    fst (v_read (plug w (V kB sizeB subB)) X S n)
+    = fst (v_read w (logical (V kB sizeB subB) X) (flat w S) n)
+    /\ good w (flat w S).
+Proof. exact bottom_view_read_lemma. Qed.
+Print Assumptions bottom_view_reads_as_file.
+Theorem bottom_view_drains_as_file :
+  forall kB sizeB subB X enc w bs fs fuel S acc,
+    wf (V kB sizeB subB) X -> shape_ok w -> good (plug w (V kB sizeB subB)) S -> 0 <= bs ->
+    fst (drain fuel enc (plug w (V kB sizeB subB)) X S bs fs acc)
+    = fst (drain fuel enc w (logical (V kB sizeB subB) X) (flat w S) bs fs acc).
+Proof. exact bottom_view_drain_lemma. Qed.
+Print Assumptions bottom_view_drains_as_file.
+Theorem wf_gives_shape : forall w content, wf w content -> shape_ok w.
+Proof. exact wf_shape_ok. Qed.
+Print Assumptions wf_gives_shape.
+
+(** Hence (2) for a 2352-wrapped image: the tower [w] over the MdfStream of the complete file
+    ([plug w M], well formed over the complete file) against THE SAME [w] over the MdfStream
+    that is built over the cut file ([plug w M'], its size recomputed from the cut file's
+    length), from any good states at the same position: the block loop over the cut image
+    yields a prefix of what it yields over the complete image, and all of it when the
+    window of [w] lies below the sector boundary the cut amounts to. *)
+Theorem stacked_mdf_blocks_prefix :
+  forall k size sub content c enc bs fs S S' fuel,
+    let cut := cut_at c content in
+    let M := mdf_view (zlen content) Base in
+    let M' := mdf_view (zlen cut) Base in
+    let w := V k size sub in
+    2352 <= zlen cut -> wf (plug w M) content ->
+    good (plug w M) S -> good (plug w M') S' -> v_tell S' = v_tell S ->
+    1 <= fs -> 1 <= bs -> (has_sect w = true \/ enc_mono fs enc) ->
+    (drain_fuel (plug w M) content S bs <= fuel)%nat ->
+    exists D D' T,
+      fst (drain fuel enc (plug w M) content S bs fs []) = Ok D
+      /\ fst (drain fuel enc (plug w M') cut S' bs fs []) = Ok D'
+      /\ D = D' ++ T
+      /\ (cov w ((zlen cut / 2352) * 2048) (v_tell S) size = true -> D' = D).
+Proof. exact mdf_stack_blocks_prefix_lemma. Qed.
+Print Assumptions stacked_mdf_blocks_prefix.
+
+(** * Non-vacuity *)
+(** a chained file of three 4-byte sectors (1, 4, 3) behind an offset window, over a 24-byte
+    file; cut inside sector 4 *)
+Definition ex_content : list Z := map Z.of_nat (seq 100 24).
+Definition ex_chain : view := V (KSect 4 (MChain [1; 4; 3])) 12 Base.
+Definition ex_view : view := V (KOff 1) 10 ex_chain.
+Example ex_view_wf : wf ex_view ex_content.
+Proof.
+  cbn [wf ex_view ex_chain kind_ok]. repeat split; try (vm_compute; congruence); try lia.
+  repeat constructor; vm_compute; congruence.
+Qed.
+Example ex_view_sect : has_sect ex_view = true. Proof. reflexivity. Qed.
+Example ex_view_bytes :
+  logical ex_view ex_content = [105; 106; 107; 116; 117; 118; 119; 112; 113; 114]
+  /\ map (baddr ex_view) [0; 1; 2; 3; 4; 5; 6; 7; 8; 9] = [5; 6; 7; 16; 17; 18; 19; 12; 13; 14].
+Proof. vm_compute. auto. Qed.
+(** cut at 18: bytes 0..4 of the view are there, byte 5 (address 18) is not, bytes 7..9
+    (addresses 12..14) are there again but are never delivered *)
+Example ex_view_run :
+  fst (run ex_view (cut_at 18 ex_content) (init_state ex_view 3) [ORead 3; ORead 2; OTell; ORead 2; OTell; OSeek 7 0; ORead 3])
+  = [OutBytes [105; 106; 107]; OutBytes [116; 117]; OutPos 5; OutErr SectorReadError; OutPos 5; OutPos 7;
+     OutBytes [112; 113; 114]]
+  /\ fst (run ex_view ex_content (init_state ex_view 3) [ORead 3; ORead 2; OTell; ORead 2; OTell; OSeek 7 0; ORead 3])
+  = [OutBytes [105; 106; 107]; OutBytes [116; 117]; OutPos 5; OutBytes [118; 119]; OutPos 7; OutPos 7;
+     OutBytes [112; 113; 114]].
+Proof. vm_compute. auto. Qed.
+Example ex_view_drain :
+  map (fun c => fst (drain (drain_fuel ex_view ex_content (init_state ex_view 0) 4) (fun x => x) ex_view
+                           (cut_at c ex_content) (init_state ex_view 0) 4 2 []))
+      [24; 20; 19; 18; 8; 7; 0]
+  = [Ok [105; 106; 107; 116; 117; 118; 119; 112; 113; 114];
+     Ok [105; 106; 107; 116; 117; 118; 119; 112; 113; 114];
+     Ok [105; 106; 107; 116]; Ok [105; 106; 107; 116]; Ok []; Ok []; Ok []].
+Proof. vm_compute. reflexivity. Qed.
+(** a tower without a sector kind returns what is there *)
+Definition ex_win : view := V (KOff 3) 12 (V KWrap 20 Base).
+Example ex_win_wf : wf ex_win ex_content.
+Proof. cbn [wf ex_win kind_ok]. repeat split; try (vm_compute; congruence); lia. Qed.
+Example ex_win_run :
+  fst (run ex_win (cut_at 10 ex_content) (init_state ex_win 7) [ORead 5; OTell; ORead 5; OTell; ORead 5])
+  = [OutBytes [103; 104; 105; 106; 107]; OutPos 5; OutBytes [108; 109]; OutPos 10; OutBytes []]
+  /\ fst (drain 5 (fun x => x) ex_win (cut_at 10 ex_content) (init_state ex_win 0) 4 2 [])
+     = Ok [103; 104; 105; 106; 107; 108]
+  /\ fst (drain 5 (fun x => x) ex_win ex_content (init_state ex_win 0) 4 2 [])
+     = Ok [103; 104; 105; 106; 107; 108; 109; 110; 111; 112; 113; 114].
+Proof. vm_compute. auto. Qed.
+(** a stereo pair of two chained files sharing the base file; 16-bit samples interleaved *)
+Fixpoint ex_inter2 (fuel : nat) (a b : list Z) : list Z :=
+  match fuel with
+  | O => []
+  | S f => match a, b with
+           | x :: y :: a', u :: w :: b' => x :: y :: u :: w :: ex_inter2 f a' b'
+           | _, _ => []
+           end
+  end.
+Definition ex_enc2 (bl : list (list Z)) : list Z :=
+  match bl with [a; b] => ex_inter2 (length a) a b | _ => [] end.
+Definition ex_pair : list strm :=
+  [ {| sv := ex_chain; sst := init_state ex_chain 0; sbs := 4; sfs := 2 |};
+    {| sv := V (KSect 4 (MChain [0; 5; 2])) 12 Base; sst := init_state (V (KSect 4 (MChain [0; 5; 2])) 12 Base) 0;
+       sbs := 4; sfs := 2 |} ].
+Example ex_pair_ok :
+  Forall (stream_ok ex_content) ex_pair /\ Forall (fun x => has_sect (sv x) = true) ex_pair.
+Proof.
+  split; repeat constructor; cbn; try lia; try (vm_compute; congruence); unfold ex_chain; eauto.
+Qed.
+Example ex_pair_drain :
+  map (fun c => fst (drain_many (many_fuel ex_content ex_pair) (fun _ _ s => s) ex_enc2 (cut_at c ex_content) ex_pair []))
+      [24; 22; 18; 7]
+  = [Ok [104; 105; 100; 101; 106; 107; 102; 103; 116; 117; 120; 121; 118; 119; 122; 123;
+         112; 113; 108; 109; 114; 115; 110; 111];
+     Ok [104; 105; 100; 101; 106; 107; 102; 103];
+     Ok [104; 105; 100; 101; 106; 107; 102; 103];
+     Ok []].
+Proof. vm_compute. reflexivity. Qed.
+(** a chained file of three 1024-byte sectors (1, 3, 4) over the 2352-byte-sector wrapper of a
+    3-sector file, cut inside the third raw sector: the wrapper over the cut file has 2
+    sectors (4096 bytes), sector 4 of the chain is gone, two blocks survive *)
+Definition ex_raw : list Z := map (fun i => Z.of_nat i mod 251) (seq 0 (3 * 2352)).
+Definition ex_w : view := V (KSect 1024 (MChain [1; 3; 4])) 3072 Base.
+Example ex_stacked :
+  let M := mdf_view (zlen ex_raw) Base in
+  let cut := cut_at 4804 ex_raw in
+  let M' := mdf_view (zlen cut) Base in
+  wf (plug ex_w M) ex_raw
+  /\ M' = V (KSect 2048 MMdf) 4096 Base
+  /\ exists D,
+       fst (drain 5 (fun x => x) (plug ex_w M) ex_raw (init_state (plug ex_w M) 0) 1024 2 []) = Ok D
+       /\ length D = 3072%nat
+       /\ fst (drain 5 (fun x => x) (plug ex_w M') cut (init_state (plug ex_w M') 0) 1024 2 []) = Ok (firstn 2048 D).
+Proof.
+  cbv zeta. split; [|split; [vm_compute; reflexivity|]].
+  - cbn [plug ex_w wf kind_ok mdf_view]. repeat split; try (vm_compute; congruence); try lia.
+    repeat constructor; vm_compute; congruence.
+  - eexists. split; [vm_compute; reflexivity|]. split; vm_compute; reflexivity.
+Qed.
+(** the hypothesis [2352 <= zlen cut] of [stacked_mdf_blocks_prefix] is needed: with less than
+    one whole raw sector left the MdfStream has size 0, and a StreamWrapper of size 0 does not
+    clip reads while its seeks clamp to 0 - every sector of the chain is then served from the
+    start of the file (the real classes do the same; no directory can be read through such a
+    wrapper, so an export never builds this tower) *)
+Example ex_stacked_needs_whole_sector :
+  let cut := cut_at 1208 ex_raw in
+  let M' := mdf_view (zlen cut) Base in
+  M' = V (KSect 2048 MMdf) 0 Base
+  /\ exists D' D,
+       fst (drain 5 (fun x => x) (plug ex_w M') cut (init_state (plug ex_w M') 0) 1024 2 []) = Ok D'
+       /\ fst (drain 5 (fun x => x) (plug ex_w (mdf_view (zlen ex_raw) Base)) ex_raw
+                     (init_state (plug ex_w (mdf_view (zlen ex_raw) Base)) 0) 1024 2 []) = Ok D
+       /\ firstn 4 D' = [16; 17; 18; 19] /\ firstn 4 D = [36; 37; 38; 39].
+Proof.
+  cbv zeta. split; [vm_compute; reflexivity|].
+  eexists _, _. split; [vm_compute; reflexivity|]. split; [vm_compute; reflexivity|].
+  split; vm_compute; reflexivity.
+Qed.
